@@ -355,4 +355,8 @@ example : (runH 5 [(exEnvOpt 1, .api (.load exKeyOpt)), (exEnvOpt 2, .hotReload)
     (fun k c => k.ty = 1 → c.dyn = false) :=
   C10_opted_out_never_dynamic 5 1 _ ({}, {}) (by decide) (by intro k c h; simp [St.lookup] at h)
 
+/-- `Arc<T>` opts out of hot-reloading exactly when `T` does (`impl Compound for Arc<T>` inherits
+`HOT_RELOADED`): an `Arc` of an opted-out type is never registered nor given a lock. -/
+theorem C10_arc_inherits_opt_out : arcInheritsHotReloaded = true := by decide
+
 end AmVerif.Props.C10
